@@ -225,7 +225,11 @@ def compact(sequence: Sequence[Any], key: object = None) -> list[object]:
             return [itm for itm in sequence if itm[key] is not None]
         except TypeError as err:
             raise LiquidTypeError(f"can't read property '{key}'", token=None) from err
-    return [itm for itm in sequence if itm is not None and not is_undefined(itm)]
+    return [
+        itm
+        for itm in sequence
+        if itm is not None and not isinstance(itm, _Null) and not is_undefined(itm)
+    ]
 
 
 @sequence_filter
